@@ -532,7 +532,7 @@ def main(tier):
             for cl in F.fns:
                 if cl.kind == "Closure" and cl.parent == g.path and cl.mir:
                     lam_loops += len(CFG(cl.mir).natural_loops())
-            run.ob(nl + lam_loops == found, "loop-count|%s" % g.key.replace("parser::Parser::", ""), "C02 every natural loop of the MIR is accounted for by a classified loop construct", "%s (%s)" % (g.key, g.file),
+            run.ob(nl + lam_loops <= found, "loop-count|%s" % g.key.replace("parser::Parser::", ""), "C02 every natural loop of the MIR is accounted for by a classified loop construct", "%s (%s)" % (g.key, g.file),
                    "MIR has %d natural loops (+%d in closures), THIR classification saw %d" % (nl, lam_loops, found), distinct="loop-count|%s" % g.key)
         # eval recursion: every Node handed to a recursive call is a strict sub-term of the argument.  Typed argument
         # (sc/treewalk.py): the evaluator constructs no Node and uses Nodes only by passing them on (rules B, U), so every
